@@ -16,7 +16,7 @@ use noodles_vcf::{
 use crate::{
     io::writer::num::{write_f32_le, write_i8, write_i16_le, write_i32_le},
     record::codec::{
-        encoder::value::write_type,
+        encoder::value::{validate_float, write_type},
         value::{Float, Int8, Int16, Int32, Type},
     },
 };
@@ -377,7 +377,7 @@ where
     for value in values {
         match value {
             Some(Value::Float(n)) => {
-                write_f32_le(writer, *n)?;
+                write_f32_le(writer, validate_float(*n)?)?;
             }
             Some(v) => {
                 return Err(io::Error::new(
@@ -412,7 +412,10 @@ where
             Some(Value::Array(Array::Float(vs))) => {
                 for result in vs.iter() {
                     let v = result?;
-                    let raw_value = v.unwrap_or(f32::from(Float::Missing));
+                    let raw_value = match v {
+                        Some(n) => validate_float(n)?,
+                        None => f32::from(Float::Missing),
+                    };
                     write_f32_le(writer, raw_value)?;
                 }
 
